@@ -1,15 +1,1363 @@
+// Package c05 decides property C05 (queries see one consistent snapshot while maintenance runs).
 package c05
 
 import (
+	"context"
+	"crypto/sha256"
+	"fmt"
+	"os"
+	"path/filepath"
+	"regexp"
+	"sort"
+	"strconv"
+	"strings"
+	"sync"
+	"sync/atomic"
 	"testing"
+	"testing/synctest"
+	"time"
 
+	"github.com/apache/skywalking-banyandb/banyand/internal/storage"
+	"github.com/apache/skywalking-banyandb/banyand/internal/verif/simmeta"
 	"github.com/apache/skywalking-banyandb/banyand/internal/verif/simnode"
+	"github.com/apache/skywalking-banyandb/pkg/panicdiag"
 	"github.com/apache/skywalking-banyandb/pkg/verif/simcore"
+	"github.com/apache/skywalking-banyandb/pkg/verif/simos"
 )
 
 func TestSim(t *testing.T) {
 	simnode.InitLogging()
+	// pkg/run.Go recovers panics of the engine loops (introducer, flusher, merger): without this hook a
+	// panicking loop would only show up as a writer that never returns
+	panicdiag.SetDefaultReporter(func(_ context.Context, r panicdiag.RecoveryResult) {
+		if r.Record == nil {
+			return
+		}
+		panicMu.Lock()
+		recovered = append(recovered, r.Record.Component+": "+firstLine(r.Record.PanicValue))
+		panicMu.Unlock()
+	})
 	simcore.Main(t, "C05", []simcore.Scenario{
-		{Name: "measure-concurrent", Weight: 3, Run: func(e *simcore.Env, tp *simcore.Tape) {}},
+		{Name: "measure-concurrent", Weight: 3, Run: func(e *simcore.Env, tp *simcore.Tape) { run(e, tp, newMeasureEng) }},
+		{Name: "stream-concurrent", Weight: 2, Run: func(e *simcore.Env, tp *simcore.Tape) { run(e, tp, newStreamEng) }},
 	})
 }
+
+var (
+	panicMu   sync.Mutex
+	recovered []string
+)
+
+func takeRecovered() []string {
+	panicMu.Lock()
+	defer panicMu.Unlock()
+	out := recovered
+	recovered = nil
+	return out
+}
+
+// ---------------------------------------------------------------------------------------------
+// engine abstraction (measure / stream)
+
+type row struct {
+	series string
+	wid    int64
+	ts     int64
+}
+
+type partView struct {
+	id        uint64
+	count     uint64
+	ref       int32
+	mem       bool
+	removable bool
+}
+
+// tableView is the current snapshot of one table (segment x shard) as the accessor shows it.
+type tableView struct {
+	key     string // "<segment suffix>/<shard>"
+	seg     string
+	root    string
+	parts   []partView
+	epoch   uint64
+	creator int
+	ref     int32
+	has     bool
+	busy    bool
+}
+
+func (t *tableView) fileIDs() map[uint64]bool {
+	out := map[uint64]bool{}
+	for _, p := range t.parts {
+		if !p.mem {
+			out[p.id] = true
+		}
+	}
+	return out
+}
+
+type qres struct {
+	wids []int64
+	ts   []int64
+}
+
+type engine interface {
+	kind() string
+	group() string
+	shards() int
+	describe() string
+	flags(tp *simcore.Tape, flushSec, maxMerge int) []string
+	install(repo *simmeta.Repo)
+	boot(repo *simmeta.Repo, dir string, flags []string) (*simnode.Node, error)
+	gen(tp *simcore.Tape, baseMs, spanMs int64, maxRows, batchNo int) ([]row, func(n *simnode.Node) error)
+	query(n *simnode.Node, loMs, hiMs int64) (*qres, error)
+	tables(n *simnode.Node) ([]tableView, error)
+	// resetGlobals re-creates process-global channels of the engine package inside the bubble
+	resetGlobals(mergeSlots int)
+	// holdSites: gate sites of the query actor between its last snapshot pin and its first block read
+	holdSites() []string
+}
+
+const dayMs = 86400_000
+
+// ---------------------------------------------------------------------------------------------
+// bookkeeping
+
+// unit is the part of one batch that lands in one table: the engine turns it into exactly one memory part and
+// one introduction. With one shard the table is the day segment; with several shards rows of one series share a
+// shard, so (day, series) is a sound refinement (the shard of a series is not observable from outside).
+type unit struct {
+	table     string
+	seg       string
+	rows      []row
+	batch     int
+	invokeSeq int
+	ackSeq    int // 0 = not acknowledged (yet)
+}
+
+type writer struct {
+	done  chan error
+	name  string
+	units []*unit
+	fin   bool
+}
+
+type pin struct {
+	parts     map[uint64]bool
+	table     string
+	journalAt int
+}
+
+type query struct {
+	done       chan struct{}
+	res        *qres
+	err        error
+	name       string
+	panicMsg   string
+	pins       []pin
+	lo, hi     int64
+	invokeSeq  int
+	retSeq     int
+	readDone   int // journal length when the query was let into its first snapshot release; -1 = not yet
+	holdLeft   int
+	full       bool
+	fin        bool
+	pinUnknown bool
+	heldProbe  bool
+	overlapped bool
+}
+
+var (
+	partPathRe = regexp.MustCompile(`/seg-(\d+)/shard-(\d+)/([0-9a-f]{16})$`)
+	partDirRe  = regexp.MustCompile(`^[0-9a-f]{16}$`)
+)
+
+const (
+	siteCur        = "snapshot.go:currentSnapshot#1"
+	siteSnapDecRef = "snapshot.go:decRef#1"
+	siteIntroPub   = "introducer.go:replaceSnapshot#1"
+	siteWriterSend = "tstable.go:mustAddMemPart#2"
+	siteWriterPre  = "tstable.go:mustAddMemPart#1"
+	siteFlushSend  = "flusher.go:flush#1"
+	siteMergeStart = "merger.go:mergePartsThenSendIntroduction#1"
+	siteMergeSend  = "merger.go:mergePartsThenSendIntroduction#2"
+	siteRemoval    = "part.go:decRef#2"
+	siteFlushWait  = "flusher.go:flush#2"
+	siteMergeWait  = "merger.go:mergePartsThenSendIntroduction#3"
+	siteMergerLoop = "merger.go:mergeLoop#2"
+)
+
+// isPreSend: the gate in front of a send to a table's introducer.
+func isPreSend(site string) bool {
+	return site == siteWriterSend || site == siteFlushSend || site == siteMergeSend
+}
+
+// isPostSend: the gate between that send and the wait for "applied" (flusher and merger only).
+func isPostSend(site string) bool { return site == siteFlushWait || site == siteMergeWait }
+
+// flusherOf: a table's loops are started back to back by one goroutine (introducer, flusher, merger), so their
+// actor names differ in the trailing spawn ordinal only: the flusher is the merger's predecessor.
+func flusherOf(merger string) string {
+	i := strings.LastIndexByte(merger, '#')
+	if i < 0 {
+		return ""
+	}
+	k, err := strconv.Atoi(merger[i+1:])
+	if err != nil || k < 2 {
+		return ""
+	}
+	return merger[:i+1] + strconv.Itoa(k-1)
+}
+
+func actorRank(a string) int {
+	if !strings.Contains(a, "/") {
+		switch {
+		case strings.HasPrefix(a, "q"):
+			return 0
+		case strings.HasPrefix(a, "w"):
+			return 1
+		}
+	}
+	return 2
+}
+
+// ---------------------------------------------------------------------------------------------
+// the scenario
+
+func run(e *simcore.Env, tp *simcore.Tape, mk func(tp *simcore.Tape) engine) {
+	old := time.Local
+	time.Local = time.UTC
+	defer func() { time.Local = old }()
+	takeRecovered()
+	synctest.Test(e.T, func(*testing.T) { scenario(e, tp, mk(tp)) })
+}
+
+type sim struct {
+	e         *simcore.Env
+	tp        *simcore.Tape
+	g         engine
+	n         *simnode.Node
+	journal   *simos.Journal
+	units     []*unit
+	writers   []*writer
+	queries   []*query
+	known     map[int64]row
+	views     []tableView
+	prevEpoch map[string]uint64
+	removed   map[string]int
+	sample    []string
+	pending   *pendingPin
+	jpos      int
+	seq       int
+	nBatches  int
+	nFlush    int
+	nMerge    int
+	multi     bool
+	stopped   bool
+}
+
+type pendingPin struct {
+	q         *query
+	before    []tableView
+	journalAt int
+}
+
+func (s *sim) tolerated(oracle, class string) bool {
+	if s.e.Known(oracle, class) {
+		return true
+	}
+	for _, c := range strings.Split(os.Getenv("C05_TOLERATE"), ",") {
+		if c == oracle+":"+class {
+			s.e.Probe("tolerated:" + c)
+			return true
+		}
+	}
+	return false
+}
+
+func segOf(ts int64) string { return time.UnixMilli(ts).UTC().Format("20060102") }
+
+// newUnits splits a generated batch into its per-table units.
+func (s *sim) newUnits(rows []row) []*unit {
+	by := map[string]*unit{}
+	var keys []string
+	s.seq++
+	segs := map[string]bool{}
+	for _, r := range rows {
+		s.known[r.wid] = r
+		seg := segOf(r.ts)
+		segs[seg] = true
+		k := seg
+		if s.multi {
+			k += "|" + r.series
+		}
+		if by[k] == nil {
+			by[k] = &unit{table: k, seg: seg, batch: s.nBatches, invokeSeq: s.seq}
+			keys = append(keys, k)
+		}
+		by[k].rows = append(by[k].rows, r)
+	}
+	sort.Strings(keys)
+	var out []*unit
+	for _, k := range keys {
+		out = append(out, by[k])
+	}
+	if len(segs) > 1 {
+		s.e.Probe("reach.batch_spans_two_segments")
+	}
+	s.nBatches++
+	return out
+}
+
+func (s *sim) acked(us []*unit) {
+	s.seq++
+	for _, u := range us {
+		u.ackSeq = s.seq
+	}
+}
+
+func (s *sim) inFlightW() int {
+	k := 0
+	for _, w := range s.writers {
+		if !w.fin {
+			k++
+		}
+	}
+	return k
+}
+
+func (s *sim) inFlightQ() int {
+	k := 0
+	for _, q := range s.queries {
+		if !q.fin {
+			k++
+		}
+	}
+	return k
+}
+
+func (s *sim) queryByName(name string) *query {
+	for _, q := range s.queries {
+		if q.name == name {
+			return q
+		}
+	}
+	return nil
+}
+
+func widDigest(ws []int64) string {
+	c := append([]int64(nil), ws...)
+	sort.Slice(c, func(i, j int) bool { return c[i] < c[j] })
+	h := sha256.New()
+	for _, w := range c {
+		fmt.Fprintf(h, "%d,", w)
+	}
+	return fmt.Sprintf("%x", h.Sum(nil))[:10]
+}
+
+// judge compares one returned query with the batch history (oracles 1-3).
+func (s *sim) judge(q *query, afterStop bool) {
+	e := s.e
+	if q.panicMsg != "" {
+		e.Fail("no-panic", "query-panicked", "%s [%d,%d] panicked: %s", q.name, q.lo, q.hi, q.panicMsg)
+		return
+	}
+	if q.err != nil {
+		if afterStop {
+			e.Probe("reach.query_error_after_stop")
+			e.Event("%s failed after the node was stopped", q.name)
+			e.Note("%s error after stop: %v", q.name, q.err)
+			return
+		}
+		e.Fail("query-never-fails", "query-error", "%s [%d,%d] invoked at #%d failed: %v", q.name, q.lo, q.hi, q.invokeSeq, q.err)
+		return
+	}
+	got := map[int64]bool{}
+	for i, w := range q.res.wids {
+		r, ok := s.known[w]
+		if !ok {
+			e.Fail("consistent-view", "garbage-row", "%s returned a row that was never written (wid %d)", q.name, w)
+			return
+		}
+		if got[w] {
+			e.Fail("consistent-view", "row-returned-twice", "%s returned write #%d (batch #%d) twice: a merged part and its input are both visible", q.name, w, s.batchOf(w))
+			return
+		}
+		got[w] = true
+		if q.res.ts[i] != r.ts {
+			e.Fail("consistent-view", "garbage-row", "%s returned write #%d with timestamp %d instead of %d", q.name, w, q.res.ts[i], r.ts)
+			return
+		}
+		if r.ts < q.lo || r.ts > q.hi {
+			e.Fail("consistent-view", "row-outside-range", "%s [%d,%d] returned write #%d at %d", q.name, q.lo, q.hi, w, r.ts)
+			return
+		}
+	}
+	// (segment, series) pairs certainly in that segment's series index when the query looked it up: written by a batch acknowledged before the invocation
+	indexed := map[string]bool{}
+	for _, u := range s.units {
+		if u.ackSeq != 0 && u.ackSeq < q.invokeSeq {
+			for _, r := range u.rows {
+				indexed[u.seg+"|"+r.series] = true
+			}
+		}
+	}
+	type verdict struct {
+		u       *unit
+		inRange int
+		vis     int
+		missOld int
+	}
+	var vs []verdict
+	nVis, nUnacked := 0, 0
+	for _, u := range s.units {
+		if u.invokeSeq > q.retSeq {
+			continue
+		}
+		v := verdict{u: u}
+		var missNew, missOld int
+		for _, r := range u.rows {
+			if r.ts < q.lo || r.ts > q.hi {
+				continue
+			}
+			v.inRange++
+			if got[r.wid] {
+				v.vis++
+			} else if !indexed[u.seg+"|"+r.series] {
+				missNew++
+			} else {
+				missOld++
+			}
+		}
+		v.missOld = missOld
+		if v.inRange == 0 {
+			continue
+		}
+		if v.vis > 0 && v.vis < v.inRange {
+			class := "batch-partially-visible"
+			if missOld == 0 {
+				// every missing row belongs to a series that no batch acknowledged before the query's invocation had written
+				class = "batch-partially-visible:rows-of-new-series-missing"
+			}
+			if u.ackSeq != 0 && u.ackSeq < q.invokeSeq {
+				class += ":acknowledged-before-query"
+			}
+			if !s.tolerated("consistent-view", class) {
+				e.Fail("consistent-view", class, "%s [%d,%d] (invoked #%d, returned #%d) sees %d of the %d rows that batch #%d (invoked #%d, acknowledged #%d) put into table %s; %d missing row(s) of series first written by batches not acknowledged when the query was invoked, %d of series written before",
+					q.name, q.lo, q.hi, q.invokeSeq, q.retSeq, v.vis, v.inRange, u.batch, u.invokeSeq, u.ackSeq, u.table, missNew, missOld)
+				return
+			}
+			continue
+		}
+		if v.vis == 0 && u.ackSeq != 0 && u.ackSeq < q.invokeSeq {
+			e.Fail("consistent-view", "acknowledged-batch-missing", "%s [%d,%d] invoked at #%d does not see batch #%d in table %s (%d rows in range), acknowledged at #%d before the query was invoked",
+				q.name, q.lo, q.hi, q.invokeSeq, u.batch, u.table, v.inRange, u.ackSeq)
+			return
+		}
+		if v.vis > 0 {
+			nVis++
+			if u.ackSeq == 0 || u.ackSeq > q.retSeq {
+				nUnacked++
+			}
+		}
+		vs = append(vs, v)
+	}
+	for _, v2 := range vs {
+		if v2.vis == 0 {
+			continue
+		}
+		for _, v1 := range vs {
+			if v1.vis == 0 && v1.u.table == v2.u.table && v1.u.ackSeq != 0 && v1.u.ackSeq < v2.u.invokeSeq {
+				class := "not-a-prefix"
+				if v1.missOld == 0 {
+					class = "not-a-prefix:rows-of-new-series-missing"
+				}
+				if s.tolerated("consistent-view", class) {
+					continue
+				}
+				e.Fail("consistent-view", class, "%s sees batch #%d (invoked #%d) in table %s but not batch #%d, acknowledged at #%d before that one was invoked",
+					q.name, v2.u.batch, v2.u.invokeSeq, v2.u.table, v1.u.batch, v1.u.ackSeq)
+				return
+			}
+		}
+	}
+	if nUnacked > 0 {
+		e.Probe("reach.query_saw_unacknowledged_batch")
+	}
+	e.Event("%s returned at #%d: %d rows (%s), %d unit(s) visible", q.name, q.retSeq, len(q.res.wids), widDigest(q.res.wids), nVis)
+}
+
+func (s *sim) batchOf(w int64) int {
+	for _, u := range s.units {
+		for _, r := range u.rows {
+			if r.wid == w {
+				return u.batch
+			}
+		}
+	}
+	return -1
+}
+
+// observe runs at every quiescent point: journal, table views, finished actors.
+func (s *sim) observe(step int) bool {
+	e := s.e
+	if ps := takeRecovered(); len(ps) > 0 {
+		e.Fail("no-panic", "engine-goroutine-panicked", "an engine goroutine panicked (recovered by pkg/run): %s", strings.Join(ps, " | "))
+		return false
+	}
+	// --- removals journaled since the last quiescent point
+	type removal struct {
+		table string
+		id    uint64
+		idx   int
+	}
+	var rms []removal
+	for ; s.jpos < len(s.journal.Ops); s.jpos++ {
+		op := s.journal.Ops[s.jpos]
+		if op.Kind != simos.OpRmAll {
+			continue
+		}
+		m := partPathRe.FindStringSubmatch("/" + op.Path)
+		if m == nil {
+			continue
+		}
+		id, _ := strconv.ParseUint(m[3], 16, 64)
+		sh, _ := strconv.Atoi(m[2])
+		rms = append(rms, removal{table: fmt.Sprintf("%s/%d", m[1], sh), id: id, idx: s.jpos})
+	}
+	for _, rm := range rms {
+		k := fmt.Sprintf("%s/%016x", rm.table, rm.id)
+		s.removed[k]++
+		if s.removed[k] > 1 {
+			e.Fail("part-files", "part-directory-removed-twice", "part %016x of table %s was removed %d times (journal op %d)", rm.id, rm.table, s.removed[k], rm.idx)
+			return false
+		}
+		if s.inFlightQ() > 0 {
+			e.Probe("reach.gc_removed_part_while_query_in_flight")
+		}
+		for _, q := range s.queries {
+			for _, p := range q.pins {
+				if p.table != rm.table || !p.parts[rm.id] || p.journalAt > rm.idx {
+					continue
+				}
+				stillReading := (q.readDone < 0 && !q.fin) || (q.readDone >= 0 && rm.idx < q.readDone)
+				if stillReading {
+					e.Fail("part-files", "part-removed-while-pinned", "part %016x of table %s was removed (journal op %d, step %d) while %s, which pinned a snapshot containing it at journal op %d, had not started releasing its snapshots",
+						rm.id, rm.table, rm.idx, step, q.name, p.journalAt)
+					return false
+				}
+				if q.readDone >= 0 {
+					e.Probe("reach.pinned_part_removed_after_last_reader")
+				}
+			}
+		}
+	}
+	// --- table views
+	vs, err := s.g.tables(s.n)
+	if err != nil {
+		if !s.stopped {
+			e.Fail("harness", "tables-accessor", "%v", err)
+			return false
+		}
+		vs = nil
+	}
+	s.views = vs
+	byKey := map[string]*tableView{}
+	perSeg := map[string]uint64{}
+	segBusy := map[string]bool{}
+	for i := range vs {
+		v := &vs[i]
+		byKey[v.key] = v
+		if v.busy {
+			segBusy[v.seg] = true
+			continue
+		}
+		for _, p := range v.parts {
+			perSeg[v.seg] += p.count
+		}
+		if v.has && s.prevEpoch[v.key] != v.epoch {
+			s.prevEpoch[v.key] = v.epoch
+			switch v.creator {
+			case 1:
+				s.nFlush++
+				s.markOverlap("flush")
+			case 2, 3:
+				s.nMerge++
+				s.markOverlap("merge")
+			}
+		}
+	}
+	for _, rm := range rms {
+		if v := byKey[rm.table]; v != nil && !v.busy && v.fileIDs()[rm.id] {
+			e.Fail("part-files", "live-part-removed", "part %016x of table %s was removed (journal op %d) but is a member of the table's current snapshot (epoch %x)", rm.id, rm.table, rm.idx, v.epoch)
+			return false
+		}
+	}
+	if !s.stopped {
+		// what a query pinning now would see: every acknowledged row, no row twice
+		ackedRows, invokedRows := map[string]uint64{}, map[string]uint64{}
+		for _, u := range s.units {
+			invokedRows[u.seg] += uint64(len(u.rows))
+			if u.ackSeq != 0 {
+				ackedRows[u.seg] += uint64(len(u.rows))
+			}
+		}
+		for _, seg := range simcore.SortedKeys(invokedRows) {
+			if segBusy[seg] {
+				continue
+			}
+			have := perSeg[seg]
+			if have < ackedRows[seg] {
+				e.Fail("consistent-view", "current-snapshot-lacks-acknowledged-rows", "segment %s: the parts of the current snapshot(s) hold %d rows, but %d rows are acknowledged (%s): a query pinning now misses rows",
+					seg, have, ackedRows[seg], s.describeSeg(seg))
+				return false
+			}
+			if have > invokedRows[seg] {
+				e.Fail("consistent-view", "current-snapshot-holds-rows-twice", "segment %s: the parts of the current snapshot(s) hold %d rows, but only %d rows were ever written (%s): a merged part and its inputs are visible together",
+					seg, have, invokedRows[seg], s.describeSeg(seg))
+				return false
+			}
+		}
+	}
+	// --- which snapshot did the query released last step pin?
+	if pp := s.pending; pp != nil {
+		s.pending = nil
+		var hit []*tableView
+		noSnap := false
+		for i := range pp.before {
+			b := &pp.before[i]
+			a := byKey[b.key]
+			if a == nil || a.busy || b.busy {
+				continue
+			}
+			if !b.has {
+				noSnap = true
+				continue
+			}
+			if a.has && a.epoch == b.epoch && a.ref == b.ref+1 {
+				hit = append(hit, b)
+			}
+		}
+		switch {
+		case len(hit) == 1:
+			pp.q.pins = append(pp.q.pins, pin{table: hit[0].key, parts: hit[0].fileIDs(), journalAt: pp.journalAt})
+			e.Probe("reach.query_pin_attributed")
+			for _, p := range simcore.ParkedList() {
+				if actorRank(p.Actor) == 2 && (p.Site == siteMergeSend || p.Site == siteMergeStart) {
+					e.Probe("reach.query_pinned_while_merge_in_progress")
+				}
+				if actorRank(p.Actor) == 2 && p.Site == siteFlushSend {
+					e.Probe("reach.query_pinned_while_flush_in_progress")
+				}
+				if actorRank(p.Actor) == 2 && p.Site == siteIntroPub {
+					e.Probe("reach.query_pinned_while_introducer_mid_publication")
+				}
+				if actorRank(p.Actor) == 1 && p.Site == siteWriterSend {
+					if w := s.writerByName(p.Actor); w != nil && len(w.units) > 1 {
+						e.Probe("reach.query_pinned_while_writer_between_introductions")
+					}
+				}
+			}
+		case len(hit) == 0 && noSnap:
+			// a table without a snapshot: nothing pinned
+		default:
+			pp.q.pinUnknown = true
+			pp.q.pins = nil
+			e.Probe("reach.query_pin_unattributed")
+		}
+	}
+	for _, q := range s.queries {
+		if q.fin || q.heldProbe || q.readDone >= 0 {
+			continue
+		}
+		for _, p := range q.pins {
+			if v := byKey[p.table]; v != nil && !v.busy {
+				cur := v.fileIDs()
+				for _, id := range sortedIDs(p.parts) {
+					if !cur[id] {
+						q.heldProbe = true
+					}
+				}
+			}
+		}
+		if q.heldProbe {
+			e.Probe("reach.query_holds_snapshot_whose_parts_were_replaced")
+		}
+	}
+	// --- finished actors
+	for _, w := range s.writers {
+		if w.fin {
+			continue
+		}
+		select {
+		case werr := <-w.done:
+			w.fin = true
+			if werr != nil {
+				if s.stopped {
+					e.Event("%s failed after the node was stopped", w.name)
+					continue
+				}
+				e.Fail("ack", "valid-write-not-acknowledged", "batch of %s not acknowledged: %v", w.name, werr)
+				return false
+			}
+			s.acked(w.units)
+			e.Event("%s acknowledged at #%d", w.name, s.seq)
+		default:
+		}
+	}
+	for _, q := range s.queries {
+		if q.fin {
+			continue
+		}
+		select {
+		case <-q.done:
+			q.fin = true
+			s.seq++
+			q.retSeq = s.seq
+			s.judge(q, s.stopped)
+			if e.Failed() {
+				return false
+			}
+		default:
+		}
+	}
+	return true
+}
+
+func (s *sim) markOverlap(what string) {
+	for _, q := range s.queries {
+		if !q.fin {
+			q.overlapped = true
+			s.e.Probe("reach.query_overlapped_" + what)
+		}
+	}
+}
+
+func (s *sim) writerByName(name string) *writer {
+	for _, w := range s.writers {
+		if w.name == name {
+			return w
+		}
+	}
+	return nil
+}
+
+func (s *sim) describeSeg(seg string) string {
+	var parts []string
+	for _, v := range s.views {
+		if v.seg != seg {
+			continue
+		}
+		var ps []string
+		for _, p := range v.parts {
+			k := "file"
+			if p.mem {
+				k = "mem"
+			}
+			ps = append(ps, fmt.Sprintf("%x:%s:%d", p.id, k, p.count))
+		}
+		parts = append(parts, fmt.Sprintf("table %s epoch-creator=%d parts[%s]", v.key, v.creator, strings.Join(ps, " ")))
+	}
+	return strings.Join(parts, "; ")
+}
+
+func sortedIDs(m map[uint64]bool) []uint64 {
+	out := make([]uint64, 0, len(m))
+	for k := range m {
+		out = append(out, k)
+	}
+	sort.Slice(out, func(i, j int) bool { return out[i] < out[j] })
+	return out
+}
+
+func scenario(e *simcore.Env, tp *simcore.Tape, g engine) {
+	repo := simmeta.New()
+	g.install(repo)
+	flushSec := []int{1, 2, 5}[tp.Choose(3)]
+	maxMerge := []int{2, 2, 3, 4}[tp.Choose(4)]
+	flags := g.flags(tp, flushSec, maxMerge)
+	flushed := time.Duration(2*flushSec+1) * time.Second
+	dirA := filepath.Join(e.Dir, "a")
+
+	// per-run arming knobs (swarm)
+	holdPull := tp.Weighted(1, 3) == 1       // queries park between the last pin and the first block read
+	holdIntro := tp.Weighted(1, 1) == 1      // the introducer parks before it publishes a snapshot
+	holdMergeStart := tp.Weighted(1, 1) == 1 // merges park before they write their output
+	holdRemoval := tp.Weighted(1, 1) == 1    // the goroutine removing a part directory parks in front of the removal
+	writerPre := tp.Weighted(2, 1) == 1
+	knobs := fmt.Sprintf("pull=%v intro=%v mergeStart=%v removal=%v writerPre=%v", holdPull, holdIntro, holdMergeStart, holdRemoval, writerPre)
+
+	var racing atomic.Bool
+	var holdMu sync.Mutex
+	passedHold := map[string]bool{}
+	hold := g.holdSites()
+	simcore.EnableGates(func(actor, site string) bool {
+		if !racing.Load() {
+			return false
+		}
+		switch actorRank(actor) {
+		case 0:
+			if site == siteCur || site == siteSnapDecRef {
+				return true
+			}
+			if holdPull {
+				for _, h := range hold {
+					if site == h { // once per query: in front of its first block read
+						holdMu.Lock()
+						first := !passedHold[actor]
+						passedHold[actor] = true
+						holdMu.Unlock()
+						return first
+					}
+				}
+			}
+			return false
+		case 1:
+			return site == siteWriterSend || (writerPre && site == siteWriterPre)
+		}
+		switch site {
+		case siteFlushSend, siteMergeSend, siteWriterSend, siteFlushWait, siteMergeWait, siteMergerLoop:
+			return true
+		case siteIntroPub:
+			return holdIntro
+		case siteMergeStart:
+			return holdMergeStart
+		case siteRemoval:
+			return holdRemoval
+		}
+		return false
+	})
+	settle := func() {
+		for i := 0; i < 100000; i++ {
+			synctest.Wait()
+			ps := simcore.ParkedList()
+			if len(ps) == 0 {
+				return
+			}
+			for _, p := range ps {
+				simcore.Release(p)
+			}
+		}
+	}
+	// The driver goroutine never enters the engine (cooperative locks in banyand/internal/storage): operations it
+	// issues run on a helper goroutine, actor "main"; the engine loops it spawns inherit "main/<site>#n".
+	call := func(f func()) {
+		fin := make(chan struct{})
+		var pv any
+		go func() {
+			simcore.SetActor("main")
+			defer simcore.ClearActor()
+			defer close(fin)
+			defer func() { pv = recover() }()
+			f()
+		}()
+		back := time.Millisecond
+		for {
+			synctest.Wait()
+			select {
+			case <-fin:
+				if pv != nil {
+					panic(pv)
+				}
+				return
+			default:
+			}
+			ps := simcore.ParkedList()
+			if len(ps) == 0 {
+				time.Sleep(back)
+				back = min(2*back, time.Second)
+				continue
+			}
+			for _, p := range ps {
+				simcore.Release(p)
+			}
+		}
+	}
+	sleep := func(d time.Duration) {
+		for d > 0 {
+			k := min(d, 10*time.Minute)
+			time.Sleep(k)
+			d -= k
+			settle()
+		}
+	}
+
+	s := &sim{e: e, tp: tp, g: g, known: map[int64]row{}, prevEpoch: map[string]uint64{}, removed: map[string]int{}, multi: g.shards() > 1}
+	s.journal = simos.Start(dirA)
+	var live *simnode.Node
+	defer func() {
+		racing.Store(false)
+		settle()
+		if live != nil {
+			call(live.Stop)
+		}
+		settle()
+		simos.Stop()
+		simcore.ResetGates()
+	}()
+	var n *simnode.Node
+	var err error
+	mergeSlots := []int{8, 1, 2}[tp.Choose(3)]
+	g.resetGlobals(mergeSlots)
+	call(func() { n, err = g.boot(repo, dirA, flags) })
+	if err != nil {
+		e.Fail("boot", "boot-failed", "boot: %v", err)
+		return
+	}
+	live, s.n = n, n
+	sleep(time.Duration(tp.Range(1, 600)) * time.Minute)
+	e.Event("%s flags=%v merge-slots=%d knobs=%s", g.describe(), flags, mergeSlots, knobs)
+
+	spans := []int64{1000, 60_000, 2 * dayMs}
+	// --- phase A: a short history without gates, so that the race starts on a table that already has file parts
+	for op, nOps := 0, tp.Weighted(1, 2, 2, 2, 1); op < nOps; op++ {
+		e.Step()
+		sleep(time.Duration(tp.Range(1, 3000)) * time.Microsecond)
+		rows, send := g.gen(tp, time.Now().UnixMilli(), spans[tp.Weighted(4, 2, 1)], 12, s.nBatches)
+		us := s.newUnits(rows)
+		var werr error
+		call(func() { werr = send(n) })
+		if werr != nil {
+			e.Fail("ack", "valid-write-not-acknowledged", "history batch of %d rows not acknowledged: %v", len(rows), werr)
+			return
+		}
+		s.acked(us)
+		s.units = append(s.units, us...)
+		e.Event("history batch #%d: %d rows in %d table(s)", s.nBatches-1, len(rows), len(us))
+		s.sample = append(s.sample, fmt.Sprintf("history: write %d rows / %d tables", len(rows), len(us)))
+		if tp.Weighted(1, 3) == 1 {
+			sleep(flushed)
+			e.AddSim(flushed)
+			e.Event("history advance %s", flushed)
+			s.sample = append(s.sample, "history: advance "+flushed.String())
+		}
+	}
+	settle()
+
+	// --- phase B: the race
+	aliases := map[string]string{}
+	alias := func(a string) string {
+		if actorRank(a) < 2 {
+			return a
+		}
+		if _, ok := aliases[a]; !ok {
+			aliases[a] = fmt.Sprintf("loop%d", len(aliases)+1)
+		}
+		return aliases[a]
+	}
+	canonParked := func() []*simcore.Parked {
+		ps := simcore.ParkedList()
+		sort.SliceStable(ps, func(i, j int) bool {
+			ri, rj := actorRank(ps[i].Actor), actorRank(ps[j].Actor)
+			if ri != rj {
+				return ri < rj
+			}
+			if ps[i].Actor != ps[j].Actor {
+				return naturalLess(ps[i].Actor, ps[j].Actor)
+			}
+			return ps[i].Site < ps[j].Site
+		})
+		return ps
+	}
+	isHold := func(site string) bool {
+		for _, h := range hold {
+			if site == h {
+				return true
+			}
+		}
+		return false
+	}
+	writersLeft := tp.Range(1, 5)
+	queriesLeft := tp.Range(2, 6)
+	advLeft := tp.Range(1, 6)
+	maxSteps := []int{60, 100, 140}[tp.Choose(3)]
+	stopAtEnd := false
+	var burstActor string
+	burstLeft := 0
+	idle := 0
+	mergers := map[string]bool{} // actors seen at the merge loop's own gate
+	racing.Store(true)
+	for step := 0; ; step++ {
+		synctest.Wait()
+		for r := 0; r < 3; r++ { // lock waiters (cooperative locks of the storage package) simply try again
+			any := false
+			for _, p := range simcore.ParkedList() {
+				if p.Site == "lock-wait" {
+					simcore.Release(p)
+					any = true
+				}
+			}
+			if !any {
+				break
+			}
+			e.Probe("reach.lock_wait_retried")
+			synctest.Wait()
+		}
+		if !s.observe(step) {
+			return
+		}
+		if step >= maxSteps {
+			e.Probe("reach.race_step_limit")
+			break
+		}
+		parked := canonParked()
+		introBusy, mergePending, flushPending := false, false, false
+		var heldQ *query
+		for _, p := range parked {
+			switch {
+			case p.Site == siteIntroPub:
+				introBusy = true
+			case p.Site == siteMergeSend && actorRank(p.Actor) == 2:
+				mergePending = true
+			case p.Site == siteFlushSend:
+				flushPending = true
+			}
+			if actorRank(p.Actor) == 0 && isHold(p.Site) {
+				if q := s.queryByName(p.Actor); q != nil && q.holdLeft > 0 && heldQ == nil {
+					heldQ = q
+				}
+			}
+		}
+		type option struct {
+			p    *simcore.Parked
+			kind int // 0 release, 1 start query, 2 start writer, 3 advance
+			w    int
+		}
+		var opts []option
+		parkedActor := map[string]bool{}
+		for _, p := range parked {
+			parkedActor[p.Actor] = true
+			if p.Site == siteMergerLoop {
+				mergers[p.Actor] = true
+			}
+		}
+		for _, p := range parked {
+			// Go's select picks at random among ready cases, so no engine loop may ever find two of them ready.
+			// (1) While an introducer is in the middle of a publication nobody is let into a send to it, and nobody who
+			// has sent continues past the introducer's own wake-ups (the flusher's epoch watcher).
+			if introBusy && (isPreSend(p.Site) || isPostSend(p.Site)) {
+				continue
+			}
+			// (2) A merger re-registers with its table's flusher when it continues after its introduction (or at once when
+			// it finds nothing to merge): that must
+			// meet the flusher waiting in a select, not parked in the middle of a cycle (it would come back to a
+			// select with both the registration and its epoch watcher ready).
+			if (p.Site == siteMergeWait || p.Site == siteMergerLoop) && mergers[p.Actor] && parkedActor[flusherOf(p.Actor)] {
+				continue
+			}
+			w := 2
+			if heldQ != nil {
+				if p.Actor == heldQ.name {
+					w = 1
+				} else if actorRank(p.Actor) == 2 {
+					w = 5
+				}
+			}
+			opts = append(opts, option{p: p, w: w})
+		}
+		if queriesLeft > 0 && s.inFlightQ() < 3 {
+			w := 2
+			if mergePending || flushPending {
+				w = 8 // maintenance output written, not yet introduced: now a query
+			}
+			opts = append(opts, option{kind: 1, w: w})
+		}
+		if writersLeft > 0 && s.inFlightW() < 2 {
+			opts = append(opts, option{kind: 2, w: 2})
+		}
+		if advLeft > 0 {
+			w := 1
+			if heldQ != nil {
+				w = 4
+			}
+			opts = append(opts, option{kind: 3, w: w})
+		}
+		if heldQ != nil {
+			heldQ.holdLeft--
+		}
+		if len(opts) == 0 {
+			if s.inFlightQ() == 0 && s.inFlightW() == 0 && len(parked) == 0 {
+				break
+			}
+			idle++
+			if idle > 20 {
+				e.Fail("harness", "race-stuck", "%d quer(ies) and %d writer(s) in flight, %d parked, nothing eligible", s.inFlightQ(), s.inFlightW(), len(parked))
+				return
+			}
+			time.Sleep(100 * time.Millisecond)
+			continue
+		}
+		c := -1
+		if burstLeft > 0 {
+			for i, o := range opts {
+				if o.kind == 0 && o.p.Actor == burstActor {
+					c = i
+					burstLeft--
+					break
+				}
+			}
+		}
+		if c < 0 {
+			burstLeft = 0
+			ws := make([]int, len(opts))
+			for i, o := range opts {
+				ws[i] = o.w
+			}
+			c = tp.Weighted(ws...)
+			if o := opts[c]; o.kind == 0 && actorRank(o.p.Actor) == 2 {
+				burstActor, burstLeft = o.p.Actor, []int{0, 2, 5}[tp.Weighted(3, 2, 1)]
+			}
+		}
+		e.Step()
+		o := opts[c]
+		switch o.kind {
+		case 1:
+			queriesLeft--
+			time.Sleep(time.Duration(tp.Range(1, 3000)) * time.Microsecond)
+			q := &query{name: fmt.Sprintf("q%d", len(s.queries)), done: make(chan struct{}), readDone: -1, full: true, holdLeft: []int{0, 4, 10, 25}[tp.Weighted(2, 2, 3, 2)]}
+			q.lo, q.hi = s.fullRange()
+			if len(s.known) > 1 && tp.Weighted(3, 1) == 1 {
+				a, b := s.pickTs(tp), s.pickTs(tp)
+				q.lo, q.hi, q.full = min(a, b), max(a, b), false
+			}
+			s.seq++
+			q.invokeSeq = s.seq
+			s.queries = append(s.queries, q)
+			if mergePending {
+				e.Probe("reach.merge_output_written_before_query")
+			}
+			if flushPending {
+				e.Probe("reach.flush_output_written_before_query")
+			}
+			e.Event("step %d: %s starts at #%d full=%v (%d parked)", step, q.name, q.invokeSeq, q.full, len(parked))
+			s.sample = append(s.sample, fmt.Sprintf("race: %s full=%v", q.name, q.full))
+			go func() {
+				simcore.SetActor(q.name)
+				defer simcore.ClearActor()
+				defer close(q.done)
+				defer func() {
+					if r := recover(); r != nil {
+						q.panicMsg = firstLine(fmt.Sprint(r))
+					}
+				}()
+				q.res, q.err = g.query(n, q.lo, q.hi)
+			}()
+		case 2:
+			writersLeft--
+			time.Sleep(time.Duration(tp.Range(1, 3000)) * time.Microsecond)
+			rows, send := g.gen(tp, time.Now().UnixMilli(), spans[tp.Weighted(4, 2, 2)], 12, s.nBatches)
+			w := &writer{name: fmt.Sprintf("w%d", len(s.writers)), done: make(chan error, 1), units: s.newUnits(rows)}
+			s.units = append(s.units, w.units...)
+			s.writers = append(s.writers, w)
+			e.Event("step %d: %s starts batch #%d at #%d: %d rows in %d table(s)", step, w.name, s.nBatches-1, w.units[0].invokeSeq, len(rows), len(w.units))
+			s.sample = append(s.sample, fmt.Sprintf("race: %s writes %d rows / %d tables", w.name, len(rows), len(w.units)))
+			go func() {
+				simcore.SetActor(w.name)
+				defer simcore.ClearActor()
+				defer func() {
+					if r := recover(); r != nil {
+						w.done <- fmt.Errorf("panic: %v", firstLine(fmt.Sprint(r)))
+					}
+				}()
+				w.done <- send(n)
+			}()
+		case 3:
+			advLeft--
+			d := []time.Duration{time.Duration(flushSec) * time.Second, flushed, 300 * time.Millisecond}[tp.Weighted(3, 2, 1)]
+			time.Sleep(d)
+			e.AddSim(d)
+			e.Event("step %d: advance %s", step, d)
+			s.sample = append(s.sample, "race: advance "+d.String())
+		default:
+			p := o.p
+			if actorRank(p.Actor) == 0 {
+				q := s.queryByName(p.Actor)
+				switch {
+				case q == nil:
+				case p.Site == siteCur && q.full && !q.pinUnknown:
+					s.pending = &pendingPin{q: q, before: s.views, journalAt: simos.Len()}
+				case p.Site == siteSnapDecRef && q.readDone < 0:
+					q.readDone = simos.Len()
+				}
+				if isHold(p.Site) && len(q.pins) > 0 {
+					e.Probe("reach.query_parked_between_pin_and_first_read")
+				}
+			}
+			e.Event("step %d: release %s @ %s (of %d parked)", step, alias(p.Actor), p.Site, len(parked))
+			simcore.Release(p)
+		}
+	}
+	_ = stopAtEnd
+
+	// --- phase C: everybody finishes (gates off), maintenance quiesces
+	racing.Store(false)
+	s.pending = nil
+	for _, q := range s.queries {
+		if !q.fin && q.readDone < 0 { // its release is no longer observed
+			q.pins, q.pinUnknown = nil, true
+		}
+	}
+	for i := 0; i < 50; i++ {
+		settle()
+		if !s.observe(-1) {
+			return
+		}
+		if s.inFlightQ() == 0 && s.inFlightW() == 0 {
+			break
+		}
+		time.Sleep(100 * time.Millisecond)
+	}
+	if k := s.inFlightQ(); k > 0 {
+		e.Fail("harness", "query-did-not-return", "%d quer(ies) did not return after all gates were opened", k)
+		return
+	}
+	if k := s.inFlightW(); k > 0 {
+		e.Fail("harness", "writer-did-not-finish", "%d write(s) did not return after all gates were opened", k)
+		return
+	}
+	for _, q := range s.queries {
+		if q.overlapped {
+			e.Nontrivial()
+		}
+	}
+	sleep(flushed)
+	sleep(flushed)
+	e.AddSim(2 * flushed)
+	if !s.observe(-1) {
+		return
+	}
+	// the final answer: exactly the acknowledged rows
+	fq := &query{name: "final", full: true, readDone: -1}
+	fq.lo, fq.hi = s.fullRange()
+	s.seq++
+	fq.invokeSeq = s.seq
+	call(func() { fq.res, fq.err = g.query(n, fq.lo, fq.hi) })
+	s.seq++
+	fq.retSeq = s.seq
+	s.judge(fq, false)
+	if e.Failed() {
+		return
+	}
+	if len(fq.res.wids) != len(s.known) {
+		e.Fail("consistent-view", "final-answer-incomplete", "the final full-range query returns %d rows, %d were acknowledged", len(fq.res.wids), len(s.known))
+		return
+	}
+	settle()
+	if !s.observe(-1) {
+		return
+	}
+	// --- final disk state: exactly the parts of the final snapshots; reference counts back at idle
+	nParts := 0
+	for _, v := range s.views {
+		if v.busy {
+			continue
+		}
+		want := v.fileIDs()
+		have := map[uint64]bool{}
+		ents, _ := os.ReadDir(v.root)
+		for _, en := range ents {
+			if en.IsDir() && partDirRe.MatchString(en.Name()) {
+				id, _ := strconv.ParseUint(en.Name(), 16, 64)
+				have[id] = true
+			}
+		}
+		for _, id := range sortedIDs(want) {
+			if !have[id] {
+				e.Fail("part-files", "snapshot-part-missing-on-disk", "table %s: part %016x of the final snapshot has no directory", v.key, id)
+				return
+			}
+		}
+		for _, id := range sortedIDs(have) {
+			if !want[id] {
+				e.Fail("part-files", "replaced-part-never-removed", "table %s: directory %016x is not part of the final snapshot (parts %v) after all queries returned and maintenance quiesced", v.key, id, sortedIDs(want))
+				return
+			}
+		}
+		nParts += len(want)
+		if v.has && v.ref != 1 {
+			e.Fail("refcounts", "snapshot-refcount-not-idle", "table %s: the current snapshot's reference count is %d after everything finished (idle value 1)", v.key, v.ref)
+			return
+		}
+		for _, p := range v.parts {
+			if p.ref != 1 {
+				e.Fail("refcounts", "part-refcount-not-idle", "table %s: part %016x has reference count %d after everything finished (idle value 1)", v.key, p.id, p.ref)
+				return
+			}
+			if p.removable {
+				e.Fail("refcounts", "live-part-marked-removable", "table %s: part %016x of the current snapshot is marked removable", v.key, p.id)
+				return
+			}
+		}
+	}
+	nRemoved := len(s.removed)
+	e.Event("final: %d rows, %d table(s), %d part(s) on disk, %d part(s) removed, %d flush and %d merge introduction(s) observed", len(s.known), len(s.views), nParts, nRemoved, s.nFlush, s.nMerge)
+	if s.nMerge > 0 {
+		e.Probe("reach.merge_happened")
+	}
+	if nRemoved > 0 {
+		e.Probe("reach.part_directory_removed")
+	}
+	e.SetSample(map[string]any{"engine": g.kind(), "flags": flags, "knobs": knobs, "batches": s.nBatches, "queries": len(s.queries), "flush_introductions": s.nFlush, "merge_introductions": s.nMerge,
+		"parts_removed": nRemoved, "ops": s.sample})
+}
+
+func (s *sim) fullRange() (int64, int64) {
+	lo := time.Now().UnixMilli()
+	for _, r := range s.known {
+		lo = min(lo, r.ts)
+	}
+	return lo - dayMs, time.Now().UnixMilli() + 3*dayMs
+}
+
+func (s *sim) pickTs(tp *simcore.Tape) int64 {
+	ws := make([]int64, 0, len(s.known))
+	for w := range s.known {
+		ws = append(ws, w)
+	}
+	sort.Slice(ws, func(i, j int) bool { return ws[i] < ws[j] })
+	return s.known[ws[tp.Choose(len(ws))]].ts
+}
+
+// naturalLess compares strings with embedded decimal numbers numerically ("#9" < "#12").
+func naturalLess(a, b string) bool {
+	i, j := 0, 0
+	for i < len(a) && j < len(b) {
+		da, db := a[i] >= '0' && a[i] <= '9', b[j] >= '0' && b[j] <= '9'
+		if da && db {
+			si := i
+			for i < len(a) && a[i] >= '0' && a[i] <= '9' {
+				i++
+			}
+			sj := j
+			for j < len(b) && b[j] >= '0' && b[j] <= '9' {
+				j++
+			}
+			na, nb := strings.TrimLeft(a[si:i], "0"), strings.TrimLeft(b[sj:j], "0")
+			if len(na) != len(nb) {
+				return len(na) < len(nb)
+			}
+			if na != nb {
+				return na < nb
+			}
+			continue
+		}
+		if a[i] != b[j] {
+			return a[i] < b[j]
+		}
+		i++
+		j++
+	}
+	return len(a)-i < len(b)-j
+}
+
+func firstLine(s string) string {
+	if i := strings.IndexByte(s, '\n'); i >= 0 {
+		s = s[:i]
+	}
+	if len(s) > 300 {
+		s = s[:300]
+	}
+	return s
+}
+
+var _ = storage.DataDir
